@@ -70,6 +70,9 @@ def run(tier, v):
         "traces_validated_against_impl": validated,
         "trace_events": len(rows_c) + len(rows_t), "trace_states": tstates,
         "random_configurations": len(runs_t),
+        "runs_via_config_decoding": len([r for r in rows_t if r["ev"] == "conf" and "viaconf=true" in r["desc"]]),
+        "runs_excluded_failed_schedule_factory": len([r for r in rows_t + rows_c if r["ev"] == "end"
+                                                      and pc.FACTORY_DEFECT in r["err"]]),
         "runs_start_cut_short": len([e for e in ends if e["created"] < confs[e["run"]]["n"]]),
         "runs_all_tokens_started": len([e for e in ends if e["created"] == confs[e["run"]]["n"]]),
         "instances_created": sum(e["created"] for e in ends),
